@@ -29,6 +29,7 @@ def withTyped2 (s : Schema) (tr : TypeRef) (dl : Bool) (v1 : Value) (dr : Bool) 
 def opsTyped (st : State) : List (String × P String) :=
   let s := st.schema
   [
+  ("sch.equals", arg pSchema fun a => arg pSchema fun b => done (encBool (Schema.equals a b))),
   ("typ.validate", arg pTypeRef fun tr => arg pFlag fun dup => arg pValue fun v =>
       done (encRes (fun _ => "ok") (validateV s dup tr v))),
   ("typ.fs", arg pTypeRef fun tr => arg pFlag fun dup => arg pValue fun v =>
